@@ -150,7 +150,7 @@ def ensure_facts(config='dev', verbose=True):
             with open(done, 'w') as fh:
                 json.dump({'key': key, 'config': config, 'nonce': nonce, 'files': files,
                            'extract_s': round(time.time() - t0, 1), 'root': root}, fh)
-            # prune older entries of this config (keep the 3 most recently used of scratch copies, 6 of /repo)
+            # prune older entries of this config (keep the 8 most recently used of scratch copies, 6 of /repo)
             base = os.path.join(CACHE, 'facts', config)
             ents = []
             for e in os.listdir(base):
@@ -165,7 +165,7 @@ def ensure_facts(config='dev', verbose=True):
             ents.sort()
             scratch = [x for x in ents if not x[2]]
             repo = [x for x in ents if x[2]]
-            for _, e, _r in scratch[:-3] + repo[:-6]:
+            for _, e, _r in scratch[:-8] + repo[:-6]:
                 shutil.rmtree(os.path.join(base, e), ignore_errors=True)
         with open(done) as fh:
             info = json.load(fh)
